@@ -123,9 +123,48 @@ Proof.
   vm_compute. repeat split.
 Qed.
 
+(** Round 9: [Vars.is_env] (model of tools::is_env, the assignment test in front of a command line) IS the regex of
+    the source: equal, on every text, to the search of the AST regenerated from tools.rs on every run
+    (Gen/ToolsRegexes.v via drive/regexsites.py) -- a changed literal breaks this proof. *)
+From Cicada Require Import Base.Regex Gen.ToolsRegexes Proofs.ToolsRegexProofs.
+Theorem C09_is_env_is_source_regex : forall s, is_env s = rx_search rx_is_env s.
+Proof. exact is_env_is_source_regex. Qed.
+Check C09_is_env_is_source_regex : forall s, is_env s = rx_search rx_is_env s.
+(** non-vacuity:  _a1=x<newline>y  yes;  1a=x  no;  a-b=x  no;  a  no *)
+Example C09_source_regex_nonvacuous :
+  rx_search rx_is_env [95;97;49;61;120;10;121] = true /\ rx_search rx_is_env [49;97;61;120] = false /\
+  rx_search rx_is_env [97;45;98;61;120] = false /\ rx_search rx_is_env [97] = false.
+Proof. vm_compute. repeat split. Qed.
+
+(** Round 9 (continued): read.rs identifier test; the assignment patterns of export.rs and execute.rs drain_env_tokens
+    (yes/no decision of [split_env_strict]; the captured name / value are what the model returns). ASTs regenerated from
+    the source on every run (Gen/BuiltinRegexes.v). *)
+From Cicada Require Import Gen.BuiltinRegexes Proofs.BuiltinRegexProofs.
+Theorem C09_read_ident_is_source_regex : forall s, valid_ident s = rx_search rx_read_ident s.
+Proof. exact valid_ident_is_source_regex. Qed.
+Theorem C09_export_name_is_source_regex : forall s,
+  (match split_env_strict s with Some _ => true | None => false end) = rx_search rx_export_name s.
+Proof. exact export_name_is_source_regex. Qed.
+Theorem C09_exec_env_is_source_regex : forall s,
+  (match split_env_strict s with Some _ => true | None => false end) = rx_search rx_exec_env s.
+Proof. exact exec_env_is_source_regex. Qed.
+Check C09_read_ident_is_source_regex : forall s, valid_ident s = rx_search rx_read_ident s.
+Check C09_export_name_is_source_regex : forall s,
+  (match split_env_strict s with Some _ => true | None => false end) = rx_search rx_export_name s.
+Check C09_exec_env_is_source_regex : forall s,
+  (match split_env_strict s with Some _ => true | None => false end) = rx_search rx_exec_env s.
+Example C09_source_regex_nonvacuous2 :
+  rx_search rx_read_ident [95;97;49] = true /\ rx_search rx_read_ident [49;97] = false /\
+  rx_search rx_export_name [97;61] = true /\ rx_search rx_exec_env [61;97] = false.
+Proof. vm_compute. repeat split. Qed.
+
 Print Assumptions C09_abs.
 Print Assumptions C09_step.
 Print Assumptions C09_step_invariant.
 Print Assumptions C09_full.
 Print Assumptions C09_pwd.
 Print Assumptions C09_read_remainder_verbatim.
+Print Assumptions C09_is_env_is_source_regex.
+Print Assumptions C09_read_ident_is_source_regex.
+Print Assumptions C09_export_name_is_source_regex.
+Print Assumptions C09_exec_env_is_source_regex.
